@@ -64,7 +64,7 @@ func (g *gen) smallInt() *Node {
 	case 2:
 		return I(int64(g.r.Intn(1000)))
 	case 3:
-		return I([]int64{2147483647, 4294967296, 9223372036854775807, 512, 513}[g.r.Intn(5)])
+		return I([]int64{2147483647, 4294967296, 9223372036854775807, 512, 513, 4611686018427387905, 4611686018427387904, 2305843009213693953, 6148914691236517206, 1152921504606846977}[g.r.Intn(10)])
 	default:
 		return I(int64(g.r.Intn(12)))
 	}
@@ -148,6 +148,9 @@ func (g *gen) arr(d int) *Node {
 			return V("va")
 		}
 		n := g.r.Intn(4)
+		if g.r.Intn(6) == 0 {
+			n = []int{4, 8, 16}[g.r.Intn(3)]
+		}
 		a := &Node{K: KArr}
 		for i := 0; i < n; i++ {
 			a.Kids = append(a.Kids, g.any(0))
